@@ -157,3 +157,52 @@ func condEdgesDeep(f *ssa.Function) []struct {
 	}
 	return out
 }
+
+// isNewFunc: an in-scope function that did not exist when the rules were confirmed.
+func isNewFunc(f *ssa.Function) bool {
+	if f == nil || f.Parent() != nil || f.Blocks == nil || f.Synthetic != "" {
+		return false
+	}
+	w := worldFor(f)
+	if w == nil || !w.inFuncs(f) {
+		return false
+	}
+	loadFrozen()
+	return len(frozenTable) > 0 && frozenTable[funcKey(f)] == nil
+}
+
+// deepInstr is an instruction of f or of a function introduced later that f calls (at any number of
+// sites); sub renders the helper's parameters as the arguments of the call through which it was reached.
+type deepInstr struct {
+	in  ssa.Instruction
+	sub map[ssa.Value]string
+}
+
+func (w *World) deepInstrs(f *ssa.Function, depth int) []deepInstr {
+	var out []deepInstr
+	var walk func(g *ssa.Function, sub map[ssa.Value]string, d int, seen map[*ssa.Function]bool)
+	walk = func(g *ssa.Function, sub map[ssa.Value]string, d int, seen map[*ssa.Function]bool) {
+		for _, b := range g.Blocks {
+			for _, in := range b.Instrs {
+				out = append(out, deepInstr{in, sub})
+				call, ok := in.(*ssa.Call)
+				if !ok || d <= 0 {
+					continue
+				}
+				h := staticCallee(call)
+				if h == nil || seen[h] || !isNewFunc(h) || len(call.Common().Args) != len(h.Params) {
+					continue
+				}
+				nsub := map[ssa.Value]string{}
+				for i, p := range h.Params {
+					nsub[p] = w.exprWith(call.Common().Args[i], sub)
+				}
+				seen[h] = true
+				walk(h, nsub, d-1, seen)
+				delete(seen, h)
+			}
+		}
+	}
+	walk(f, nil, depth, map[*ssa.Function]bool{f: true})
+	return out
+}
